@@ -199,7 +199,7 @@ def main():
             "guard": "meshless_voro_verif",
             "enable": "RUSTFLAGS='--cfg meshless_voro_verif' cargo build (the harness crate in /verif/harness depends on /repo by path)",
             "baseline_off_cmd": "cd /repo && cargo test --workspace --no-fail-fast --offline",
-            "source_commits": ["2ec7ecd"],
+            "source_commits": ["2ec7ecd", "2f872ce", "439f283"],
             "fix_commits": ["09dfeb6", "acc62b6", "e7978d5", "ab48a7b", "26b237e", "cd67cc4"],
             "add_only": True,
         },
